@@ -268,21 +268,21 @@ Proof.
   - apply IH, Hb.
 Qed.
 
-Lemma iv_of_scale s c iv st' st0 : 0 < s -> c_nspec c = 1%nat -> c_ivar c = Some iv ->
+Lemma iv_of_scale s c iv st' st0 : 0 < s -> c_nspec c = 1%nat -> c_stacked c = false -> c_ivar c = Some iv ->
   s_mask st' = s_mask st0 -> s_comb st' = s_comb st0 ->
   Vs (/ (s * s)) (iv_of (scale_cin s c) st') (iv_of c st0).
 Proof.
-  intros Hs Hn Hiv Hm Hc. unfold iv_of, weights, scale_cin;
-    cbn [c_ivar c_inloglam c_newloglam c_specnum c_nspec].
-  rewrite Hiv, Hn, Hm, Hc. cbn [Nat.leb seq fold_left]. cbv zeta.
+  intros Hs Hn Hst Hiv Hm Hc. unfold iv_of, weights, scale_cin;
+    cbn [c_ivar c_inloglam c_newloglam c_specnum c_nspec c_stacked].
+  rewrite Hiv, Hn, Hst, Hm, Hc. cbn [Nat.leb seq fold_left]. cbv zeta.
   apply vsum_scale; [apply Vs_zeros |].
   apply ivar_of_exposure_scale. apply Vs_nth. apply Vs_div, Veq_refl.
 Qed.
 
-Theorem stages_snd_scale s c iv fits : 0 < s -> c_nspec c = 1%nat -> c_ivar c = Some iv ->
+Theorem stages_snd_scale s c iv fits : 0 < s -> c_nspec c = 1%nat -> c_stacked c = false -> c_ivar c = Some iv ->
   Veq (snd (stages (scale_cin s c) (map (scale_fit s) fits))) (map (fun a => a / (s * s)) (snd (stages c fits))).
 Proof.
-  intros Hs Hn Hiv. rewrite !stages_eq; cbn [snd]. apply Vs_div.
+  intros Hs Hn Hst Hiv. rewrite !stages_eq; cbn [snd]. apply Vs_div.
   destruct (st_of_scale s c fits Hs) as (_ & Hm & Hc). apply (iv_of_scale s c iv); assumption.
 Qed.
 
@@ -393,8 +393,9 @@ Qed.
 Lemma aesthetics_Vs m s t flux' flux iv' iv : 0 < t -> Vs s flux' flux -> Vs t iv' iv ->
   Vs s (aesthetics_model m flux' iv') (aesthetics_model m flux iv).
 Proof.
-  intros Ht Hf Hi. unfold aesthetics_model. cbv zeta.
+  intros Ht Hf Hi. unfold aesthetics_model, aesthetics_core. cbv zeta.
   rewrite (bad_scale t iv' iv) by (try exact Hi; intro E; rewrite E in Ht; discriminate Ht).
+  destruct (forallb (fun b : bool => b) (map (fun v => Qeq_bool v 0) iv)); [exact Hf |].
   destruct (existsb (fun b : bool => b) (map (fun v => Qeq_bool v 0) iv)); [| exact Hf].
   destruct m.
   - apply maskinterp_scale, Hf.
@@ -423,20 +424,20 @@ Definition growth_decisions_agree (s : Q) (c : cin) (fits : list (option gfit)) 
   = map c1f_bad (smooth3 (snd (stages c fits))).
 
 Theorem scaling_law s c iv fits :
-  0 < s -> c_nspec c = 1%nat -> c_ivar c = Some iv ->
+  0 < s -> c_nspec c = 1%nat -> c_stacked c = false -> c_ivar c = Some iv ->
   growth_decisions_agree s c fits ->
   let (nf, ni) := combine1fiber_model c fits in
   let (nf', ni') := combine1fiber_model (scale_cin s c) (map (scale_fit s) fits) in
   Forall2 Qeq nf' (map (fun a => a * s) nf) /\ Forall2 Qeq ni' (map (fun a => a / (s * s)) ni).
 Proof.
-  intros Hs Hn Hiv Hg. unfold growth_decisions_agree in Hg. rewrite !stages_eq in Hg. cbn [snd] in Hg.
+  intros Hs Hn Hst Hiv Hg. unfold growth_decisions_agree in Hg. rewrite !stages_eq in Hg. cbn [snd] in Hg.
   unfold combine1fiber_model, combine1fiber_full. rewrite (good_index_scale s c Hs).
   destruct (good_index c) as [|i0 gi].
   - cbn [fst]. unfold scale_cin; cbn [c_newloglam].
     split; [apply Vs_map | apply Vs_div]; apply Vs_zeros.
   - rewrite !stages_eq. cbn [fst].
     destruct (st_of_scale s c fits Hs) as (Hf & Hm & Hc).
-    pose proof (iv_of_scale s c iv _ _ Hs Hn Hiv Hm Hc) as Hi.
+    pose proof (iv_of_scale s c iv _ _ Hs Hn Hst Hiv Hm Hc) as Hi.
     pose proof (grow_Vs _ _ _ Hi Hg) as Hgr.
     split.
     + apply Vs_map. replace (c_method (scale_cin s c)) with (c_method c) by reflexivity.
